@@ -344,5 +344,7 @@ package agent
 // written nowhere else.
 //@ func (a *Agent) TaskPrepare(Command int, Info any, Message *map[string]string, ClientID string, teamserver TeamServer) (j *Job, err error)
 //@   modifies *
+// every id an operator names in a command is a 32-bit value in hex: the parse must hold all of them
+//@   guard-call idwidth: "ParseInt" arg(1) == 16 ==> arg(2) == 64
 //@   guard-call taskid: "ParseInt#1" arg(0) == job.TaskID && arg(1) == 16 && arg(2) == 64 && job.TaskID == unboxed(Optional["TaskID"], string)
 //@   guard-store rid: "+Job\.RequestID$" storedvalue() == lastresult(Uint32) || (inscope("RequestID") && storedvalue() == uint32(RequestID) && (id32(job.TaskID) ==> RequestID == uf_hexval(job.TaskID)))
